@@ -348,7 +348,7 @@ def item_assert(kind, var, exp):
     return ["{ let d = %s.as_ref().unwrap(); assert!(d.depth == %d); assert!(d.index == %d); assert!(d.n_remaining == %d); }" % (var, exp[0], exp[1], exp[2])]
 
 
-def gen_c13(k, sname, ops, thorough, max_steps, concrete_start=True):
+def gen_c13(k, sname, ops, thorough, max_steps, concrete_start=False):
     m = build_model(k, ops)
     nodes = sorted(m.nodes)
     pre = [l.replace("let mut t", "let mut t") for l in build_code(k, ops)]
@@ -443,7 +443,11 @@ def select(prop, tier):
                     continue
                 if thorough and k == 3 and sname not in ("n3c_02", "n3c_21", "n3s_02", "n3s_21", "reuse", "n2_1"):
                     continue
-                for h in gen_c13(k, sname, ops, thorough, 3 if thorough else 2):
+                for h in gen_c13(k, sname, ops, thorough, 2):
+                    # DfsEdge with two calls exhausts memory (62 GB after 15 min, measured) and three calls of any traversal
+                    # do not finish in 10 min: outside the bound
+                    if "_edge_step2" in h[0] or "_edge_skip_twice" in h[0]:
+                        continue
                     hs.append(h)
     return hs
 
